@@ -114,17 +114,25 @@ def window_cases(tier, seed):
                         b0 = [{"k": "step", "script": [{"do": "fail", "cls": "ValueError", "msg": "x"}, {"do": "ok", "val": 1, "gate": "blk:0:0"}],
                                "retry": {"decisions": [("retry", 1), ("stop",)]}}]
                     b0 = b0 + [{"k": "step", "script": [{"do": "ok", "val": "late", "gate": "blk:0:0"}]}]
-                    dec = {"k": "step", "script": [{"do": "ok" if decider == "ok" else "fail", "val": "d", "cls": "ValueError", "msg": "d", "gate": "dec"}],
-                           "retry": {"kind": "preset", "name": "none"}}
-                    brs = [{"body": b0}, {"body": [dec]}, {"body": [{"k": "step", "script": [{"do": "ok", "val": "b2", "gate": "blk:0:2"}]}]}]
+                    # the decider's last record (its branch completion) is queued just before the timer thread's refresh call, so both
+                    # travel in one API call and both waiters are released together; the batcher thread is descheduled right after
+                    # releasing the first one (after-sync), which lets the decider's done-callback run while the resubmitter is still
+                    # inside its blocking call
+                    dstep = {"k": "step", "val": "d"} if decider == "ok" else \
+                        {"k": "try", "catch": "*", "body": {"k": "step", "script": [{"do": "fail", "cls": "ValueError", "msg": "d"}], "retry": {"kind": "preset", "name": "none"}}}
+                    dtail = [{"k": "gate", "name": "dec"}] if decider == "ok" else [{"k": "gate", "name": "dec"}, {"k": "raise", "cls": "ValueError", "msg": "decider failed"}]
+                    brs = [{"body": b0}, {"body": [dstep] + dtail}, {"body": [{"k": "step", "script": [{"do": "ok", "val": "b2", "gate": "blk:0:2"}]}]}]
                     node = {"k": "par", "branches": brs, "cfg": cfg} if kind == "par" else {"k": "map", "items": [0, 1, 2], "per_item": brs, "body": [], "cfg": cfg}
-                    holds = [{"match": {"kind": "gate", "name": "dec"}, "until": {"event": refresh}},
-                             {"match": refresh, "delay_ms": rng.choice([60, 120])},
-                             {"match": {"kind": "gate", "name": "blk:0:0"}, "until": ret_any},
-                             {"match": {"kind": "gate", "name": "blk:0:2"}, "until": ret_any}]
-                    yield {"label": "decided-during-resubmission|%s|%s|%s" % (kind, cname, parker), "prog": {"body": [{"k": "try", "body": node, "catch": "*"}, {"k": "step", "val": "end"}]},
-                           "prog_seed": 17900 + i, "pattern": {"p": "plain"}, "holds": holds, "opts": {"hang_s": 3.0, "idle_s": 0.7}, "max_inv": 12}
-                    i += 1
+                    for sweep in ((3, 9, 15) if tier == "quick" else range(0, 20, 2)):
+                        holds = [{"match": {"kind": "gate", "name": "dec"}, "until": {"event": {"kind": "susp", "path": "0/b0/0"}}, "delay_ms": sweep},
+                                 {"match": {"kind": "gate", "name": "blk:0:0"}, "until": ret_any},
+                                 {"match": {"kind": "gate", "name": "blk:0:2"}, "until": ret_any}]
+                        yield {"label": "decided-during-resubmission|%s|%s|%s" % (kind, cname, parker),
+                               "prog": {"body": [{"k": "try", "body": node, "catch": "*"}, {"k": "step", "val": "end"}]},
+                               "prog_seed": 17900 + i, "pattern": {"p": "plain"}, "holds": holds, "max_inv": 12,
+                               "opts": {"hang_s": 3.0, "idle_s": 0.7, "perturb": {"p": 0.0, "seed": seed * 53 + i, "files": ["state.py", "threading.py"],
+                                                                                   "after_sync": {"p": 0.9, "sleep": 0.004}}}}
+                        i += 1
     L = 256 * 1024
     for kind in ("par", "map"):
         for n, maxc, cfg in ((6, 2, {"min_ok": 2}), (5, 1, {"min_ok": 1}), (4, 2, {"preset": "first_successful"}), (5, 2, {"tol_n": 0}), (6, 3, {"min_ok": 2, "tol_n": 1})):
@@ -163,7 +171,7 @@ SPEC = Spec(
     "inside the step function} x a completion order forced by conductor gates inside the step functions (gate k is released only after "
     "the previous branch body has exited; blocked branches are released only once the call has returned), followed by a wait so the "
     "result is replayed; LINE-level yield injection on 1/5 and a pause between the field writes of the executor's branch state on 1/7 of "
-    "the scenarios; plus scenarios in which the deciding completion arrives while the timer thread re-submits a suspended branch (its refresh call kept in flight 60-120 ms), and oversized (>256 KB) batches decided early while branches were still queued behind max_concurrency, replayed twice. Oracle: at the instant the call returns the reference policy is decided by the branch completion records applied so "
+    "the scenarios; plus scenarios in which the deciding completion arrives while the timer thread re-submits a suspended branch (the decider's completion record and the timer thread's refresh travel in one API call, release instant swept over the batching window, after-sync perturbation), and oversized (>256 KB) batches decided early while branches were still queued behind max_concurrency, replayed twice. Oracle: at the instant the call returns the reference policy is decided by the branch completion records applied so "
     "far (timing is not judged for min_successful-only configs after a failure, where code and docs disagree); the call returns without "
     "the conductor having to force-release a blocked branch; peak concurrently active branch bodies <= max_concurrency; one item per "
     "input in order; items reported SUCCEEDED/FAILED have an applied completion record and carry the branch's ground-truth value/error; "
